@@ -1,25 +1,125 @@
 // Harness for frg::hash_map: runs op scripts on the real code, prints canonical result lines
-// (compared with the extracted Gallina model) and evaluates the property with std::unordered_map
-// plus lifetime/allocation registries (oracle, independent of the model).
+// (compared with the extracted Gallina model) and evaluates the properties with std::unordered_map
+// (C14) plus lifetime/allocation registries (C16) -- oracles independent of the model.
+//
+// Output per op: the result line, then an event line "e ..." listing, in order, what the allocator
+// and the element type observed during that op:
+//   A<id>:<n>  allocate(n) returned block <id> (ids = allocation sequence numbers 1,2,.. per case)
+//   F<id>:<n>  deallocate(block <id>, n)        R<id>  free(block <id>)
+//   C<id> / D<id> / U<id>   a Value object inside block <id> was constructed / destroyed /
+//                           read, moved from or assigned (objects outside allocator blocks, i.e.
+//                           temporaries and locals, are not listed; the lib registries still check them)
+// After the last op the map goes out of scope: line "dtor", then the destructor's event line.
+// `harness --sizes` prints sizeof(chain *) and sizeof(chain) (parameters of the model).
 #include <unordered_map>
 #include <algorithm>
 #include "vharness.hpp"
 #include <frg/hash_map.hpp>
 
 struct Hasher {
+	// returns a 64-bit value on purpose: hash_map reduces it with (unsigned int) in every bucket
+	// computation, the model with "mod 2^32" -- kinds 0 and 4 produce values above 2^32
 	int kind = 0;   // 0 identity, 1 constant, 2 mod3, 3 frg::hash<uint64_t>, 4 high bits (k >> 28)
-	unsigned int operator()(uint64_t k) const {
+	uint64_t operator()(uint64_t k) const {
 		switch(kind) {
-		case 0: return (unsigned int)k;
+		case 0: return k;
 		case 1: return 7;
-		case 2: return (unsigned int)(k % 3);
+		case 2: return k % 3;
 		case 3: return frg::hash<uint64_t>{}(k);
-		default: return (unsigned int)(k >> 28);
+		default: return k >> 28;
 		}
 	}
 };
 
-using Map = frg::hash_map<uint64_t, vh::TV, Hasher, vh::TrackAlloc>;
+// ---- event log (component-local counters; lib/vharness.hpp registries stay the oracle)
+struct Blk { int id; size_t n; };
+static std::map<uintptr_t, Blk> g_blk;          // live blocks by address
+static std::set<const void *> g_inblock;         // live Value objects that sit inside a block
+static int g_next_id = 0;
+static bool g_log_on = true;
+static std::string g_ev;
+static long g_op_allocs, g_op_frees, g_op_cons, g_op_des;
+
+static void evf(const char *fmt, ...) {
+	if(!g_log_on) return;
+	char buf[64];
+	va_list ap; va_start(ap, fmt); vsnprintf(buf, sizeof buf, fmt, ap); va_end(ap);
+	g_ev += buf;
+}
+static int block_of(const void *p) {
+	auto a = (uintptr_t)p;
+	auto it = g_blk.upper_bound(a);
+	if(it == g_blk.begin()) return 0;
+	--it;
+	return (a < it->first + (it->second.n ? it->second.n : 1)) ? it->second.id : 0;
+}
+
+struct LogAlloc {
+	void *allocate(size_t n) {
+		void *p = vh::g_alloc.allocate(n);
+		int id = ++g_next_id;
+		g_blk[(uintptr_t)p] = Blk{id, n};
+		g_op_allocs++;
+		evf(" A%d:%zu", id, n);
+		return p;
+	}
+	void deallocate(void *p, size_t n) {
+		if(p) {
+			auto it = g_blk.find((uintptr_t)p);
+			evf(" F%d:%zu", it == g_blk.end() ? 0 : it->second.id, n);
+			if(it != g_blk.end()) g_blk.erase(it);
+			g_op_frees++;
+		}
+		vh::g_alloc.deallocate(p, n);
+	}
+	void free(void *p) {
+		if(p) {
+			auto it = g_blk.find((uintptr_t)p);
+			evf(" R%d", it == g_blk.end() ? 0 : it->second.id);
+			if(it != g_blk.end()) g_blk.erase(it);
+			g_op_frees++;
+		}
+		vh::g_alloc.free(p);
+	}
+};
+
+struct HV : vh::TV {   // tracked value that also reports in-block events
+	static void ev(char c, const void *p) {
+		int b = block_of(p);
+		if(!b) return;
+		if(c == 'C') { g_inblock.insert(p); g_op_cons++; }
+		if(c == 'D') { g_inblock.erase(p); g_op_des++; }
+		evf(" %c%d", c, b);
+	}
+	HV() : TV() { ev('C', this); }
+	HV(uint64_t x) : TV(x) { ev('C', this); }
+	HV(const HV &o) : TV(o) { ev('U', &o); ev('C', this); }
+	HV(HV &&o) : TV(std::move(o)) { ev('U', &o); ev('C', this); }
+	HV &operator=(const HV &o) { ev('U', this); ev('U', &o); TV::operator=(o); return *this; }
+	HV &operator=(HV &&o) { ev('U', this); ev('U', &o); TV::operator=(std::move(o)); return *this; }
+	~HV() { ev('D', this); }
+	uint64_t get() const { ev('U', this); return TV::get(); }
+};
+
+using Map = frg::hash_map<uint64_t, HV, Hasher, LogAlloc>;
+static_assert(sizeof(Map::chain) < 10 * sizeof(Map::chain *), "a node block is smaller than the smallest table");
+
+// what the map must own after every op, counted on the registries (not on the model)
+static void balance(Map &m, const char *after) {
+	size_t want_blocks = m.size() + (m._capacity ? 1 : 0);
+	size_t want_bytes = m.size() * sizeof(Map::chain) + m._capacity * sizeof(Map::chain *);
+	size_t bytes = 0; for(auto &b : vh::g_alloc.blocks) bytes += b.second;
+	if(vh::g_alloc.blocks.size() != want_blocks || bytes != want_bytes)
+		vh::oracle(vh::g_alloc.blocks.size() > want_blocks ? "leak-block" : "lifetime",
+			"after %s: %zu blocks / %zu bytes allocated, size()=%zu capacity=%zu need %zu blocks / %zu bytes",
+			after, vh::g_alloc.blocks.size(), bytes, m.size(), (size_t)m._capacity, want_blocks, want_bytes);
+	if(g_inblock.size() != m.size())
+		vh::oracle(g_inblock.size() > m.size() ? "leak-object" : "lifetime",
+			"after %s: %zu live values inside node blocks, size()=%zu", after, g_inblock.size(), m.size());
+	if(vh::g_life.live.size() != g_inblock.size())
+		vh::oracle("leak-object", "after %s: %zu live values in total but %zu inside node blocks (a temporary outlived the call)",
+			after, vh::g_life.live.size(), g_inblock.size());
+}
 
 static void body(const vh::Lines &ls) {
 	Hasher h;
@@ -28,37 +128,41 @@ static void body(const vh::Lines &ls) {
 		auto t = vh::split(ls[0]);
 		if(t.size() == 2 && t[0] == "hash") { h.kind = atoi(t[1].c_str()); start = 1; }
 	}
+	g_blk.clear(); g_inblock.clear(); g_next_id = 0; g_log_on = true; g_ev.clear();
 	std::unordered_map<uint64_t, uint64_t> ref;
 	{
 		Map m{h};
 		for(size_t i = start; i < ls.size(); i++) {
 			auto t = vh::split(ls[i]);
 			const std::string &o = t[0];
+			g_ev.clear(); g_op_allocs = g_op_frees = g_op_cons = g_op_des = 0;
+			size_t size_before = m.size();
 			if(o == "i") {
 				uint64_t k = vh::u64(t[1]), v = vh::u64(t[2]);
-				m.insert(k, vh::TV{v});
+				m.insert(k, HV{v});
 				if(!ref.count(k)) ref[k] = v;   // inserting a present key is outside the property
 				printf("u\n");
 			} else if(o == "x") {
 				uint64_t k = vh::u64(t[1]), v = vh::u64(t[2]);
-				vh::TV &r = m[k];
+				HV &r = m[k];
 				bool had = ref.count(k);
 				uint64_t old = r.get();
 				if(had) { printf("v %llu\n", (unsigned long long)old);
 					if(old != ref[k]) vh::oracle("refmap", "operator[](%llu) found %llu, reference %llu", (unsigned long long)k, (unsigned long long)old, (unsigned long long)ref[k]); }
 				else { printf("v none\n");
 					if(old != 0) vh::oracle("refmap", "operator[] created a non-default value"); }
-				r = vh::TV{v};
+				r = HV{v};
 				ref[k] = v;
 			} else if(o == "g") {
 				uint64_t k = vh::u64(t[1]);
-				vh::TV *p = m.get(k);
+				HV *p = m.get(k);
 				auto it = m.find(k);
 				if((p != nullptr) != bool(it)) vh::oracle("refmap", "get and find disagree on key %llu", (unsigned long long)k);
-				if(p) printf("v %llu\n", (unsigned long long)p->get()); else printf("v none\n");
+				uint64_t val = p ? p->get() : 0;
+				if(p) printf("v %llu\n", (unsigned long long)val); else printf("v none\n");
 				auto rit = ref.find(k);
 				if((rit != ref.end()) != (p != nullptr)) vh::oracle("refmap", "key %llu: map says %s, reference says %s", (unsigned long long)k, p ? "present" : "absent", rit != ref.end() ? "present" : "absent");
-				else if(p && p->get() != rit->second) vh::oracle("refmap", "key %llu: wrong value", (unsigned long long)k);
+				else if(p && val != rit->second) vh::oracle("refmap", "key %llu: wrong value", (unsigned long long)k);
 			} else if(o == "r") {
 				uint64_t k = vh::u64(t[1]);
 				auto r = m.remove(k);
@@ -85,18 +189,33 @@ static void body(const vh::Lines &ls) {
 				printf("v %zu\n", m.size());
 				if(m.size() != ref.size()) vh::oracle("refmap", "size() = %zu, reference %zu", m.size(), ref.size());
 				if(m.empty() != ref.empty()) vh::oracle("refmap", "empty() disagrees with the reference");
-			}
+			} else continue;
+			printf("e%s\n", g_ev.c_str());
+			// per-op counters against what the op did to size(): one node per new entry, one per removed entry
+			long dsize = (long)m.size() - (long)size_before;
+			if(g_op_cons - g_op_des != dsize)
+				vh::oracle("lifetime", "%s: %ld constructs / %ld destroys inside node blocks but size() changed by %ld", ls[i].c_str(), g_op_cons, g_op_des, dsize);
+			balance(m, ls[i].c_str());
 		}
-		// every reference key must still be found at the end (cheap full sweep)
+		// every reference key must still be found at the end (cheap full sweep; not part of the event log)
+		g_log_on = false;
 		for(auto &kv : ref) {
-			vh::TV *p = m.get(kv.first);
+			HV *p = m.get(kv.first);
 			if(!p) { vh::oracle("refmap", "final sweep: present key %llu not found", (unsigned long long)kv.first); break; }
 			if(p->get() != kv.second) { vh::oracle("refmap", "final sweep: key %llu wrong value", (unsigned long long)kv.first); break; }
 		}
 		if(m.size() != ref.size()) vh::oracle("refmap", "final size() = %zu, reference %zu", m.size(), ref.size());
+		g_log_on = true; g_ev.clear();
 	}
+	printf("dtor\ne%s\n", g_ev.c_str());
 	vh::g_life.check_empty("hash_map");
 	vh::g_alloc.check_empty("hash_map");
 }
 
-int main() { return vh::run(body); }
+int main(int argc, char **argv) {
+	if(argc > 1 && !strcmp(argv[1], "--sizes")) {
+		printf("%zu %zu\n", sizeof(Map::chain *), sizeof(Map::chain));
+		return 0;
+	}
+	return vh::run(body);
+}
